@@ -194,6 +194,23 @@ pub fn check_total<T: std::fmt::Debug>(ctx: &mut Ctx, x: &Exec<T>, tag: &str) ->
     }
 }
 
+/// With a read timeout configured, no receive may happen on a socket that carries none (it would block for ever once the
+/// server is silent). Returns false (and records a violation) if the wire log shows such a receive.
+pub fn check_no_blocked_receive<T: std::fmt::Debug>(ctx: &mut Ctx, x: &Exec<T>, tag: &str) -> bool {
+    if x.log.iter().any(|e| matches!(e, crate::vnet::WireEvent::BlocksForever { .. })) {
+        ctx.violation(
+            format!("hang:receive-on-a-socket-without-read-timeout:{tag}"),
+            &x.choices(),
+            "a read timeout was configured, yet a receive ran on a socket that carries no read timeout: with the server silent the query does not return",
+            "receive without read timeout",
+            "every receive is bounded by the configured read timeout",
+            render_log(&x.log),
+        );
+        return false;
+    }
+    true
+}
+
 /// Normalise a panic message to its kind (drop the concrete numbers).
 pub fn panic_kind(msg: &str) -> String {
     // the kind is the text before any quoted data
